@@ -52,3 +52,8 @@ from props_when import WhenProp  # noqa: E402
 _reg(WhenProp(['Ea.C19.instant_simple', 'Ea.C19.instant_naive', 'Ea.C19.instant_time',
                'Ea.C19.instant_time_raises_when_ambiguous_today', 'Ea.C19.reject_nonpositive', 'Ea.C19.reject_past',
                'Ea.C19.past_tolerance_matches']))
+
+from props_dst import DstProp  # noqa: E402
+
+_reg(DstProp(['Ea.C20.both_given_verbatim', 'Ea.C20.required_hour', 'Ea.C20.affected_hour_rejected',
+              'Ea.C20.accepted_outside_reported_hours', 'Ea.C20.find_time_probes', 'Ea.C20.validity_sound', 'Ea.C20.scan_orders']))
